@@ -68,7 +68,7 @@ Print Assumptions C02_parsed_wf_for_equality.
      parse_ip4 h = if matchb IPv4address h then Some (ip4_value h) else None      (Model/Ip4.v)
      ip6_bytes h = ip6_value h   for the text h of an accepted IPv6 literal       (Model/Parse.v)
    which are statements about the two address scanners alone; Proofs/ParseSplit.v
-   parse_split_given_addr derives [u = split_spec s] from them. *)
+   parse_split_given_addr / parse_is_split derive [u = split_spec s] from them. *)
 Theorem C02_split_partial : forall s u, parse s = POk u -> split_spec s = spec_addr u.
 Proof. exact parse_split. Qed.
 Print Assumptions C02_split_partial.
